@@ -66,6 +66,12 @@ CHECKS["C02"] = dict(
     note="Continuous parameters sampled per class (VERIF_SEED). Tolerances in spec/Tolerances.tla with measured calibration; detector distances kept below kr ~ 2.5e4 (documented limit of the full radial dependence).",
     ref="5 C02")
 
+CHECKS["C03"] = dict(
+    technique="TLA+ spec CrossSections.tla (catalogue of configuration classes and the relations applicable to each) model-checked by TLC; public calc_cross_sections / calc_scat_matrix measured on every class and the recorded relation defects validated by CrossSectionsTrace.tla",
+    text="TLC enumerates 5 relative-index x 7 size (1e-3..400) x 3 medium x 3 layering x 4 polarisation classes with the applicable relations; for each class the harness measures ext = sca + abs, abs >= 0, abs = 0 for real index, sca > 0, |g| <= 1, the optical theorem against the forward amplitude from calc_scat_matrix, the solid-angle integrals of |S|^2 for sca and g (Gauss-Legendre, 4 x nstop nodes), the Rayleigh formula, the four numbers against an independent textbook series, and one-sphere Multisphere clusters (x- and y-polarised); a TLC trace spec asserts every relation with tolerances from spec/Tolerances.tla.",
+    note="Quick tier: one class per (index, size, layering) = 105 classes + 8 clusters; thorough: all 1260 classes. Open finding: layered spheres with real indices at x ~ 1e-3 (precision loss).",
+    ref="5 C03")
+
 NOT_APPLICABLE = []
 
 
